@@ -91,6 +91,20 @@ func writeEvidence(cfg *PropConfig, tier string, seed int, runs []*FuncRun, tota
 	}
 	assumptions := append([]string{}, cfg.Assumptions...)
 	assumptions = append(assumptions, trusted...)
+	// entry preconditions: proved at the call sites that lie inside the kernel, ASSUMED for every other caller (net/http,
+	// generated bindings, user code)
+	var pres []string
+	for _, r := range runs {
+		if r.Enc == nil || r.Enc.con == nil {
+			continue
+		}
+		for _, c := range r.Enc.con.Requires {
+			if r.Enc.active(c) {
+				pres = append(pres, fmt.Sprintf("entry precondition of %s (obligation at call sites inside the kernel, assumed for all other callers): %s", r.Name, c.Src))
+			}
+		}
+	}
+	assumptions = append(assumptions, dedupe(pres)...)
 	assumptions = append(assumptions, dedupe(notes)...)
 	assumptions = append(assumptions,
 		"len(x) <= 2^56 for every string and slice",
